@@ -852,7 +852,7 @@ class rate_prob(TimePar):
     def update_values(self):
         v = self.v
         if self.isarray:
-            self.values = v.copy()
+            self.values = v.astype(float) # The probabilities are not integers even if the rates are
             inds = v > 0.0
             if inds.sum():
                 self.values[inds] = 1 - np.exp(-v[inds]/self.factor)
